@@ -23,10 +23,12 @@ RULE = (
     "EVENT; header casings/spacing; bodies containing CRLF) x a set of segmentations of the concatenated "
     "stream: unsplit, byte-by-byte, EVERY single cut, all pairs of cuts among structurally interesting "
     "positions (inside/around each CRLF, chunk-size line, header end, message boundary), seeded random "
-    "pairs and random multi-cuts. work_units counts segmentations fed to the real feed loop. A run is "
+    "pairs and random multi-cuts; a sample of ~30 segmentations per run is additionally realised as FRAME boundaries on an encrypted session "
+    "(SecureHomeKitProtocol, every piece sealed as frames of <= 1024 bytes). work_units counts segmentations fed to the real feed loop. A run is "
     "non-trivial if it has >=2 messages or a chunked body and at least one cut; distinct = distinct event-log digest."
 )
-REAL = ["aiohomekit.http.response.HttpResponse", "aiohomekit.controller.ip.connection.InsecureHomeKitProtocol.data_received"]
+REAL = ["aiohomekit.http.response.HttpResponse", "aiohomekit.controller.ip.connection.InsecureHomeKitProtocol.data_received",
+        "aiohomekit.controller.ip.connection.SecureHomeKitProtocol.data_received (framed delivery of the same streams)"]
 STUB = ["transport (not used by the receive path)", "HomeKitConnection (records event_received)"]
 ASSUMPTIONS = [
     "well-formed = what the reference emitter produces: CRLF line ends, Content-Length or lower-case 'chunked' "
@@ -249,7 +251,44 @@ def execute(plan: dict, ch: Chooser) -> dict:
                 )
             ctx.event("seg", len(cuts), len(got), hashlib.blake2b(repr(got).encode(), digest_size=6).hexdigest())
 
+    async def main_secure():
+        """the same segmentations realised as FRAME boundaries on an encrypted session: every piece becomes one or more
+        frames (<= 1024 bytes), so message boundaries fall anywhere inside frames and frames anywhere inside messages"""
+        from aiohomekit.controller.ip.connection import SecureHomeKitProtocol
+        from refimpl import crypto as RC
+
+        key = RC.H(b"c07|%d" % ch.seed)[:32]
+        k = 30
+        chosen = plan["ops"][:2] + plan["ops"][2 :: max(1, (len(plan["ops"]) - 2) // k)][:k]
+        for cuts in chosen:
+            cuts = sorted({c for c in cuts if 0 < c < len(stream)})
+            sink: list = []
+            proto = SecureHomeKitProtocol(_ConnStub(sink), key, bytes(32))
+            proto.result_cbs.extend(_RecFuture(sink, loop) for _ in range(n_http))
+            codec = RC.FrameCodec(key)
+            err = None
+            prev = 0
+            try:
+                for c in cuts + [len(stream)]:
+                    piece = stream[prev:c]
+                    prev = c
+                    for i in range(0, len(piece), 1024):
+                        proto.data_received(codec.seal_frame(piece[i : i + 1024]))
+            except Exception as e:  # noqa: BLE001
+                err = e
+            ctx.obligations += 1
+            got = [_norm(r) for r in sink]
+            if err is not None:
+                ctx.violate("parse-raises", f"secure/{type(err).__name__}", f"frame boundaries at {cuts[:6]} raised {err!r} on a well-formed stream over an encrypted session")
+            elif got != expected:
+                ctx.violate("messages-differ", "secure", f"frame boundaries at {cuts[:8]}: {len(got)} messages delivered, {len(expected)} sent ({len(stream)} B) over an encrypted session")
+            ctx.event("secseg", len(cuts), len(got))
+        ctx.probe("secure_framed_segmentations", len(chosen))
+
     loop.run_sim(main())
+    loop = SimLoop()
+    ctx.loop = loop
+    loop.run_sim(main_secure())
     nontrivial = (len(expected) >= 2 or any(m["kind"] == "chunked" for m in plan["msgs"])) and len(plan["ops"]) > 1
     ctx.probe("msgs", len(expected))
     ctx.probe("chunked_msgs", sum(1 for m in plan["msgs"] if m["kind"] == "chunked"))
